@@ -283,10 +283,10 @@ def json_norm(x):
 
 
 @harness("c13.json")
-def h_json(ch: Chooser):
-    schema = gen_jschema(ch)
+def h_json(ch: Chooser, vec: list, nsamples: int = 3):
+    schema = gen_jschema(Chooser(vec))
     docs = [gen_jdoc(ch, schema, "s0")]
-    for i in (1, 2):
+    for i in range(1, nsamples):
         if not ch.flag(f"sample{i}", free=True):
             break
         docs.append(gen_jdoc(ch, schema, f"s{i}"))
@@ -371,7 +371,12 @@ def run(tier: str, seed: int) -> int:
         nmodels.append(len(vecs))
         for v in vecs:
             tasks.extend(split_deep(("c13.xml", dict(vec=v, maxfeat=maxfeat, nsamples=nsamples), dev, ()), short=2, rounds=2))
-    tasks.extend(split_deep(("c13.json", {}, 3 if th else 2, ()), short=3, rounds=3))
+    # JSON: hidden key->kind models with <= jm deviations x sample sets with <= jd non-default answers
+    jm, jd, jn = (3, 3, 3) if th else (2, 2, 2)
+    jvecs = []
+    explore(lambda ch: gen_jschema(ch), jm, lambda ch, sch: jvecs.append(list(ch.choices)))
+    for v in jvecs:
+        tasks.extend(split_deep(("c13.json", dict(vec=v, nsamples=jn), jd, ()), short=2, rounds=1))
     stats = parallel(tasks, explore_task_split, chunk=2)
     confirm_violations(stats)
     return finish(
@@ -379,11 +384,11 @@ def run(tier: str, seed: int) -> int:
         rule=("XML passes " + "; ".join(f"{n} hidden regular models (G-xsd base + <= {mf} of {len(FEATURES) - 1} structure features, canonical value spellings) x every set of 1-{ns} instance documents with <= {dv} non-minimal answers in total"
                                         for n, (mf, ns, dv) in zip(nmodels, passes)) +
               " (occurrence counts, choice branches, optional attributes, values), each validated by libxml2 against the hidden schema, which is then discarded; "
-              f"JSON: every hidden model (<= 2 levels, <= 2 keys per object, each key of one kind among 9: 5 scalar types, arrays of int / str, object, array of objects) x every set of 1-3 distinct "
-              f"documents of it (keys present / absent / null, arrays of 0-2 items, values from the type alphabet incl. '' and 0) with <= {3 if th else 2} "
+              f"JSON: {len(jvecs)} hidden key->kind models (<= 2 levels, <= 2 keys per object, each key of one kind among 9: 5 scalar types, arrays of int / str, object, array of objects; <= {jm} "
+              f"non-default answers) x every set of 1-{jn} distinct documents of it (keys present / absent / null, arrays of 0-2 items, values from the type alphabet incl. '' and 0) with <= {jd} "
               "non-default answers in total. Classes are generated from the samples alone; every sample must parse strictly (no unknown property, no converter warning) and "
               "re-serialize to the same infoset / JSON value."),
         assumptions=["stand-ins for jinja2 / toposort / click / ruff", "XML comparison modulo prefixes and whitespace-only text next to elements; JSON modulo key order, explicit nulls and empty arrays (a list field cannot tell absent from empty)"],
-        bound={"xml_passes(features,samples,deviations)": [list(p) for p in passes], "json_deviations": 3 if th else 2},
+        bound={"xml_passes(features,samples,deviations)": [list(p) for p in passes], "json(model_deviations,doc_deviations,samples)": [jm, jd, jn]},
         extra={"programs": stats.executions, "generator_rejected": stats.counters.get("generator_rejected", 0)},
     )
